@@ -108,10 +108,13 @@ def run_check(prop, tier="quick", seed=0, replay=None, nshards=None, verbose=Tru
     notes = []
     known_fired = {}
     anchor_reach = {}
+    anchor_total = {}
     anchors_unresolved = set()
     for r in reports:
         for k, lines in r.get("anchor_reach", {}).items():
             anchor_reach.setdefault(k, set()).update(lines)
+        for k, lines in r.get("anchor_total", {}).items():
+            anchor_total.setdefault(k, set()).update(lines)
         anchors_unresolved.update(r.get("anchors_unresolved", []))
         distinct.update(r["distinct"])
         states.update(r["states"])
@@ -190,6 +193,11 @@ def run_check(prop, tier="quick", seed=0, replay=None, nshards=None, verbose=Tru
                 "exhaustive_sweeps": exhaustive,
                 "monitor_counters": counters,
                 "anchor_reach_lines": {k: len(v) for k, v in sorted(anchor_reach.items())},
+                # LINE events fire on statement starts only, so continuation lines of a multi-line statement stay in
+                # "unreached" although their statement ran; the list is a guide to undriven branches, not a verdict
+                "anchor_code_lines": {k: len(v) for k, v in sorted(anchor_total.items())},
+                "anchor_unreached_lines": {k: sorted(anchor_total.get(k, set()) - v) for k, v in sorted(anchor_reach.items())
+                                           if anchor_total.get(k, set()) - v},
                 "shards": len(reports), "shards_dead": len(dead), "truncated_by_budget": truncated,
                 "known_findings_seen": {k: v["count"] for k, v in seen_known.items()},
                 "violation_classes": {k: v["count"] for k, v in unknown.items()},
